@@ -2325,6 +2325,34 @@ def grd12_cursor_counts_complete_reads(P, R, L, rule="GRD-12"):
             "(a torn tail must leave cursor < file length)", "; ".join(bad) or "%d stores, %d read sites" % (len(stores), len(reads)))
 
 
+def grd12_fully_consumed_is_exact(P, R, L, rule="GRD-12"):
+    """LogReader::is_fully_consumed answers `cursor >= file length` and nothing weaker: any slack (e.g. "fewer than a
+    header's worth of bytes left") lets a log with a short torn tail be re-opened for appending behind the garbage."""
+    fn = "logs::LogReader::is_fully_consumed"
+    b = P.body(fn)
+    if b is None:
+        return R.missing_anchor(rule, fn)
+    R.analysed(b)
+    good, seen = False, []
+    for bb in range(b.n):
+        if b.is_cleanup(bb):
+            continue
+        for st in b.blocks[bb]["stmts"]:
+            if st["k"] == "assign" and st["rv"]["k"] == "aggregate" and st["rv"].get("variant") == "Ok" and st["pl"]["l"] == 0:
+                for o in origins(b, st["rv"]["ops"][0]):
+                    seen.append((o.kind, o.name))
+                    if o.kind == "binop" and o.extra:
+                        ops = o.extra[1]["rv"]["ops"]
+                        so = [origins(b, x) for x in ops]
+                        is_cur = lambda os_: bool(os_) and all("current_cursor_position" in x.path and x.kind in ("param", "field") for x in os_)
+                        is_len = lambda os_: bool(os_) and all(x.kind == "call" and x.name == "logs::LogReader::len" for x in os_)
+                        if (o.name == "Ge" and is_cur(so[0]) and is_len(so[1])) or (o.name == "Le" and is_len(so[0]) and is_cur(so[1])) or \
+                                (o.name == "Eq" and ((is_cur(so[0]) and is_len(so[1])) or (is_len(so[0]) and is_cur(so[1])))):
+                            good = True
+    R.check(rule, fn + "|exact-comparison", good and len(seen) == 1, where(b),
+            "is_fully_consumed is exactly `consumed cursor >= file length` (no slack: a 1..6 byte torn tail is not 'consumed')", "value origins %s" % seen)
+
+
 # ------------------------------------------------------------------------------------------- MAN-1 manifest reader reports damage
 def man1_manifest_reader_strict(P, R, L, rule="MAN-1"):
     """Skipping a damaged fragment is documented behaviour for the write-ahead log only. The manifest must be read in a
@@ -3637,3 +3665,31 @@ def pair13_block_indexed(P, R, L, rule="PAIR-13"):
             if not a0 or not a1 or fed(a0[0]) != "meta" or fed(a1[0]) != "index":
                 ok = False
         R.check(rule, fz.path + "|footer-handles", ok, where(fz), "Footer::new(handle of the metaindex block, handle of the index block)", "footer sites %d" % len(ft))
+
+
+# ------------------------------------------------------------------------------------------- GRD-18 short reads are noticed
+def grd18_short_reads(P, R, L, rule="GRD-18"):
+    """`Read::read` may return fewer bytes than asked for (always at the end of the data). Outside the file-system
+    implementations every call to it either is `read_exact` or has its byte count compared with the expected length:
+    a parser that accepts a short buffer silently invents the missing bytes (zeros)."""
+    n, exact = 0, 0
+    for p, b in sorted(P.bodies.items()):
+        if p.startswith("<fs::") or p.startswith("fs::"):
+            continue
+        for c in b.calls():
+            if b.is_cleanup(c.bb):
+                continue
+            dn = c.declared_name or ""
+            if dn == "std::io::Read::read_exact":
+                exact += 1
+            if dn != "std::io::Read::read":
+                continue
+            n += 1
+            R.analysed(b)
+            is_n = lambda os_, c=c: any(o.kind == "call" and o.site is not None and o.site.bb == c.bb for o in os_)
+            used = False
+            for cmp_ in comparisons(b):
+                if is_n(cmp_.lhs_origins()) or is_n(cmp_.rhs_origins()):
+                    used = True
+            R.check(rule, "%s|read-count-checked" % p, used, c.where(), "the number of bytes returned by read() is compared with the expected length (or read_exact is used)", "")
+    R.floor(rule, "read_exact / checked read sites outside fs::", n + exact, 4)
